@@ -911,16 +911,18 @@ func (cl *Cloud) describe(c *Call) []*aliyunClient.NetworkInterface {
 		if len(ids) > 0 && !contains(ids, id) {
 			continue
 		}
-		if c.Instance != "" && e.InstanceID != c.Instance {
+		if c.EFLO != e.EFLO {
 			continue
 		}
-		if c.EFLO != e.EFLO {
+		if c.Instance == "" || e.InstanceID == c.Instance {
+			e.tick() // observed: a middle status advances
+		}
+		if c.Instance != "" && e.InstanceID != c.Instance {
 			continue
 		}
 		if c.Instance != "" && e.Type == aliyunClient.ENITypeMember {
 			continue
 		}
-		e.tick()
 		if c.Status != "" && e.Status != c.Status {
 			continue
 		}
